@@ -47,6 +47,11 @@ pub fn ptr_len<T>(start: *const T, end: *const T) -> usize {
 pub struct IdEmitter(usize);
 
 impl IdEmitter {
+  /// Create an emitter whose first id is `next`
+  pub fn starting_at(next: usize) -> Self {
+    Self(next)
+  }
+
   pub fn emit(&mut self) -> usize {
     let result = self.0;
     self.0 += 1;
